@@ -1,5 +1,6 @@
 """C20 — HyperLogLog survives serialisation and rejects invalid serialised state."""
 from ..terms import TermBuilder, fmt, mk, const, subterms
+from ..terms import callee_is as _nm
 from ..guards import atomic_facts, int_bounds, has_eq_fact, panic_sites
 from ..paths import PathEnumerator
 from .common import self_field_term
@@ -43,7 +44,7 @@ def _plain(t):
     if not isinstance(t, tuple) or not t:
         return t
     t = tuple(_plain(x) if isinstance(x, tuple) else x for x in t)
-    if t[0] == "field" and t[2] == "0" and t[1][0] == "variant" and t[1][2] == "Continue" and t[1][1][0] == "call" and t[1][1][1].endswith("Try>::branch"):
+    if t[0] == "field" and t[2] == "0" and t[1][0] == "variant" and t[1][2] == "Continue" and t[1][1][0] == "call" and _nm(t[1][1][1], "Try>::branch"):
         inner = t[1][1][2][0]
         if inner[0] == "call" and inner[1].rsplit("::", 1)[-1] in ("ok_or_else", "ok_or") and inner[2] and inner[2][0][0] == "call" and inner[2][0][1] == "checked":
             return inner[2][0][2][0]
@@ -348,7 +349,7 @@ def field_flow(ctx, reach, struct_fields):
                 if s_[0] == "loopvar" and (s_[1], s_[2]) not in seen:
                     seen.add((s_[1], s_[2]))
                     work.append(tb.loop_update(s_[1], s_[2]))
-                if s_[0] == "call" and s_[1].endswith("next_value"):
+                if s_[0] == "call" and _nm(s_[1], "next_value"):
                     for a in s_[2]:
                         if a[0] == "site":
                             sites.add(a[2])
